@@ -80,7 +80,7 @@ def _case(draw, tier):
             for n in nodes:
                 if n["k"] == "graph" and n.get("map"):
                     n["fan"] = min(6, max(n.get("fan", 1), k + 1))
-    pre = draw(st.sampled_from([None, None, None, "empty_map", "zip_error", "failing_map", "failing_map", "earlier_loop", "earlier_loop"]))
+    pre = draw(st.sampled_from([None, None, None, "empty_map", "zip_error", "failing_map", "failing_map", "earlier_loop", "earlier_loop", "paused_run", "paused_run"]))
     return {"nodes": nodes, "k": k, "via_map": prob(draw, 0.3), "nitems": draw(st.integers(1, 6)),
             "sched": draw(st.lists(st.integers(0, 9), max_size=80)), "adversarial": prob(draw, 0.8),
             "pre": pre, "pre_k": draw(st.integers(1, 8)),
@@ -238,6 +238,21 @@ def check_case(case, ev):
             phase["leftover"] = ctx.inflight
             ctx.peak = ctx.inflight
             ctx.log.clear()
+
+    elif case.get("pre") == "paused_run":
+        # an earlier run with a LARGER limit, awaited from the same task, that ends PAUSED at an interrupt: its budget is gone with it
+        labels.add("pre:paused_run")
+        pre_state = {}
+
+        async def pre(runner):
+            from hypergraph import Graph, InterruptNode
+
+            gp = Graph([InterruptNode(lambda q: None, name="ask_pre", output_name="ans_pre")])
+            try:
+                r = await runner.run(gp, {"q": 1}, max_concurrency=k + 4)
+                pre_state["status"] = r.status.value
+            except Exception as e:  # noqa: BLE001
+                pre_state["error"] = e
 
     elif case.get("pre") in ("empty_map", "zip_error"):
         # an earlier bounded call awaited from the same task that ends without executing anything: an empty batch
